@@ -284,8 +284,91 @@ class C05(RunSpec):
             p = {"kind": "minimize", "dim": (2, 3), "budget": rng.choice(["maxfun", "maxiter"])}
         return p
 
+    def make_case(self, seed, idx, tier):
+        d = super().make_case(seed, idx, tier)
+        rng = gen.case_rng(self.prop, seed, idx, "target")
+        if d.get("kind") == "tree" and d["gsc"]["k"] in ("evals", "fevals") and d["options"].get("random_seed") is not None:
+            # pilot-then-target: the limit is chosen (in run_case) so that first-true falls on a chosen consultation
+            d["target"] = {"frac": round(rng.random(), 3), "prefer_inside": rng.random() < 0.8}
+        return d
+
+    def run_case(self, desc):
+        from . import harness
+
+        if desc.get("target"):
+            desc = self._retarget(desc)
+        ctx = harness.run_case(desc, [m() for m in self.monitors])
+        res = run_result(ctx, desc)
+        if desc.get("target"):
+            res["cov"]["C05.targeted_runs"] += 1
+            ft = ctx.first_true
+            if ft is not None and desc["target"].get("want_gsc_index") == ft[0]:
+                res["cov"]["C05.targeted_runs_hit_the_chosen_consultation"] += 1
+            elif not ctx.aborted:
+                res["cov"]["C05.targeted_runs_missed_the_chosen_consultation"] += 1
+        return res
+
+    @staticmethod
+    def _retarget(desc):
+        """Pilot run of the same seeded descriptor with a far-away limit records the (weighted) evaluation count at
+        every consultation; the real run's limit is then set to the count at a chosen consultation."""
+        import copy
+
+        from . import harness
+
+        pilot = copy.deepcopy(desc)
+        pilot["gsc"]["n"] = 10**9
+        w = pilot["gsc"].get("w", "equal") if pilot["gsc"]["k"] == "fevals" else "equal"
+        nl = len(pilot["levels"])
+        weights = [1] * nl if w in ("equal", None) else ([1] + [0] * (nl - 1) if w == "root" else list(w))
+
+        class Pilot:
+            ctx = None
+
+            def __init__(self):
+                self.rows = []
+
+            def on_gsc(self, tree, verdict, kind, deme):
+                c = sum(weights[d.level] * d.n_evaluations for lvl in tree.levels for d in lvl)
+                self.rows.append((self.ctx.n_gsc, kind, c))
+
+        pm = Pilot()
+        pctx = harness.Ctx(pilot, [pm], gsc_cap=400)
+        harness.scramble_rng(pilot.get("np_seed", 0))
+        import warnings
+
+        with warnings.catch_warnings():
+            warnings.simplefilter("ignore")
+            with harness.activate(pctx):
+                try:
+                    cfg = harness.build_config(pilot, pctx)
+                    from pyhms.tree import DemeTree
+
+                    t = DemeTree(cfg)
+                    t.run()
+                except harness.WatchdogAbort:
+                    pass
+                except harness.HarnessError:
+                    raise
+                except Exception:
+                    pass
+        rows = [r for r in pm.rows if r[2] > 0]
+        d = copy.deepcopy(desc)
+        if len(rows) < 3:
+            d["target"] = None
+            return d
+        cand = [r for r in rows if r[1] == "deme"] if desc["target"]["prefer_inside"] else rows
+        cand = cand or rows
+        pick = cand[int(desc["target"]["frac"] * len(cand)) % len(cand)]
+        # first consultation at which the count reaches the picked value
+        first = next(r for r in rows if r[2] >= pick[2])
+        d["gsc"]["n"] = int(pick[2]) if float(pick[2]).is_integer() else pick[2]
+        d["target"]["want_gsc_index"] = first[0]
+        return d
+
     def floors(self, tier):
         fl = [(f"C05.gsc_true.{g}", 1, "GSC class seen true") for g in gen.GSC_KINDS]
+        fl += [("C05.targeted_runs_hit_the_chosen_consultation", 3, "pilot-then-target placements that hit the chosen consultation")]
         fl += [
             ("C05.first_true_inside_with_2_to_run", 1, "first-true inside a metaepoch with >=2 demes still to run"),
             ("C05.first_true_at_boundary", 1, "first-true at a boundary"),
